@@ -66,3 +66,93 @@ def std_classes(case, v):
     if f.get("zero_diag", 0) > 0: labs.append("zero_diagonal_entries")
     if v.get("v") == "fail": labs.append("sig=" + v.get("sig", ""))
     return labs
+
+
+# ---------------------------------------------------------------------------------------------- expert driver cases
+def svd_matrix(n, cond_exp, seed, cplx, single):
+    """dense matrix with singular values graded from 1 to 10^-cond_exp"""
+    rng = np.random.default_rng(seed)
+    def orth():
+        a = rng.standard_normal((n, n)) + (1j * rng.standard_normal((n, n)) if cplx else 0)
+        q, _ = np.linalg.qr(a); return q
+    U, V = orth(), orth()
+    s = np.logspace(0, -cond_exp, n) if n > 1 else np.array([1.0])
+    A = (U * s) @ V.conj().T
+    ent = []
+    for j in range(n):
+        for i in range(n):
+            v = A[i, j]
+            re_, im_ = float(np.real(v)), float(np.imag(v)) if cplx else 0.0
+            if single: re_, im_ = float(np.float32(re_)), float(np.float32(im_))
+            if re_ != 0.0 or im_ != 0.0: ent.append((i, j, re_, im_))
+    return ent
+
+
+@st.composite
+def expert_case(draw, nmax=30, kinds=("recipe", "recipe", "svd", "scaled", "arrow"), pmax=4, cond_max=None, facts=("DOFACT", "EQUILIBRATE", "FACTORED"),
+                transes=("N", "T", "C"), stypes=("NC", "NR"), precs=PRECS, valdists=("dominant", "generic")):
+    prec = draw(st.sampled_from(list(precs)))
+    cplx, single = prec in "cz", prec in "sc"
+    kind = draw(st.sampled_from(list(kinds)))
+    fseed = draw(st.integers(0, 2 ** 32 - 1))
+    if kind == "svd":
+        n = draw(st.integers(1, min(14, nmax)))
+        kmax = (4 if single else 11) if cond_max is None else cond_max
+        k = draw(st.integers(0, kmax))
+        entries = svd_matrix(n, k, fseed, cplx, single)
+        rec = {"family": "svd", "cond_exp": k}
+    else:
+        fam = ["arrow"] if kind == "arrow" else None
+        rec = draw(mx.recipe(12 if kind == "arrow" else 1, max(12, nmax) if kind == "arrow" else nmax, fam, valdists, allow_zero_diag=True))
+        n = rec["n"]
+        entries = mx.entries_of(rec, prec)
+    scal = "none"
+    if kind == "scaled" or draw(st.integers(0, 3)) == 0:
+        scal = draw(st.sampled_from(["row", "col", "both"]))
+        rs = np.random.default_rng(fseed ^ 0x5bd1e995)
+        span = 5 if single else 12
+        rexp = rs.integers(-span, span + 1, n) if scal in ("row", "both") else np.zeros(n, int)
+        cexp = rs.integers(-span, span + 1, n) if scal in ("col", "both") else np.zeros(n, int)
+        if draw(st.booleans()):   # non powers of two as well
+            rmul = rs.uniform(1, 2, n); cmul = rs.uniform(1, 2, n)
+        else:
+            rmul = np.ones(n); cmul = np.ones(n)
+        e2 = []
+        for (i, j, a, b) in entries:
+            f = float(2.0 ** int(rexp[i]) * 2.0 ** int(cexp[j]) * (rmul[i] if scal in ("row", "both") else 1) * (cmul[j] if scal in ("col", "both") else 1))
+            a, b = a * f, b * f
+            if single: a, b = float(np.float32(a)), float(np.float32(b))
+            e2.append((i, j, a, b))
+        entries = e2
+    stype = draw(st.sampled_from(list(stypes)))
+    tun = mx.fix_tunables(draw(mx.tunables))
+    sch = draw(mx.schedule(1, pmax, ("controlled", "controlled", "free")))
+    s = {"prec": prec, "n": n, "m": n, "stype": stype, "order": draw(st.sampled_from(["0", "1", "2", "3"]))}
+    s.update(tun); s.update(sch)
+    s["fact"] = draw(st.sampled_from(list(facts))); s["trans"] = draw(st.sampled_from(list(transes)))
+    if s["trans"] == "C" and cplx and draw(st.integers(0, 7)) != 0:
+        s["trans"] = "T"       # complex CONJ is the listed finding D3c: keep a small share to confirm it, explore behind it
+    if s["fact"] == "FACTORED":
+        s["fact1"] = draw(st.sampled_from(["DOFACT", "EQUILIBRATE"])); s["trans1"] = draw(st.sampled_from(["N", "T"]))
+    s["u"] = draw(st.sampled_from([1.0, 1.0, 0.5, 0.1]))
+    nrhs = draw(st.sampled_from([1, 1, 2, 3, 0])); s["nrhs"] = nrhs
+    s["ldb"] = n + draw(st.sampled_from([0, 0, 2])); s["ldx"] = n + draw(st.sampled_from([0, 0, 1]))
+    rs = np.random.default_rng(fseed ^ 0x9e3779b9)
+    b = []
+    for _ in range(n * nrhs):
+        re_ = float(rs.uniform(-2, 2)); im_ = float(rs.uniform(-2, 2)) if cplx else 0.0
+        if single: re_, im_ = float(np.float32(re_)), float(np.float32(im_))
+        b.append((re_, im_))
+    return {"set": s, "entries": entries, "b": b, "family": rec["family"], "kind": kind, "scal": scal}
+
+
+def expert_classes(case, v):
+    labs = std_classes(case, v); s = case["set"]; f = v.get("f", {})
+    labs += ["fact=" + s["fact"], "trans=" + s["trans"], "kind=" + case.get("kind", "?"), "scal=" + case.get("scal", "none"),
+             "equed=%d" % int(f.get("equed", -1)), "cell=%s/%s/%s/%s" % (s["trans"], s["stype"], s["fact"], s["prec"])]
+    if f.get("wellcond", 0): labs.append("wellcond")
+    if f.get("rcond_checked", 0): labs.append("rcond_checked")
+    k = f.get("kappa", 0) or 0
+    labs.append("kappa<1e3" if k < 1e3 else "kappa<1e8" if k < 1e8 else "kappa>=1e8")
+    if f.get("info", 0) == s["n"] + 1: labs.append("info=n+1")
+    return labs
